@@ -10,6 +10,7 @@ import (
 	"os"
 	"path/filepath"
 	"sort"
+	"strings"
 
 	"github.com/fluhus/biostuff/formats/bed"
 	"github.com/fluhus/biostuff/formats/fasta"
@@ -186,6 +187,43 @@ func checkStops(what string, f stopFn, unordered, errLast bool) core.Outcome {
 	return core.Outcome{Class: cl, Nontrivial: len(full) >= 2, Evals: evals}
 }
 
+// checkStopsAt is checkStops for long runs: instead of every position it tries the listed stop
+// positions (positions beyond the run length are skipped; negative p means N+p+1).
+func checkStopsAt(what string, f stopFn, stops []int) core.Outcome {
+	full, _, p := f(0, false)
+	if p != "" {
+		return core.Failf("%s: uninterrupted run panicked: %s", what, p)
+	}
+	evals := 1
+	seen := map[int]bool{}
+	for _, t := range stops {
+		if t < 0 {
+			t = len(full) + t + 1
+		}
+		if t < 1 || t > len(full) || seen[t] {
+			continue
+		}
+		seen[t] = true
+		for _, rf := range []bool{false, true} {
+			items, calls, p := f(t, rf)
+			evals++
+			form := map[bool]string{false: "yield returning false", true: "range + break"}[rf]
+			if p != "" {
+				return core.Failf("%s: stopping at item %d of %d (%s) panicked: %s", what, t, len(full), form, p)
+			}
+			if calls != t {
+				return core.Failf("%s: stopping at item %d of %d (%s): %d callbacks were made, want exactly %d", what, t, len(full), form, calls, t)
+			}
+			for i := range items {
+				if items[i] != full[i] {
+					return core.Failf("%s: stopping at item %d (%s): item %d differs from the uninterrupted run", what, t, form, i+1)
+				}
+			}
+		}
+	}
+	return core.Outcome{Class: fmt.Sprint("long items>0=", len(full) > 0), Nontrivial: len(full) >= 2, Evals: evals}
+}
+
 type c18Input struct {
 	Format string `json:"format"`
 	Input  core.S `json:"input,omitempty"`
@@ -307,6 +345,85 @@ func runC18(r *core.Run) {
 			return o1
 		})
 
+	core.Clause(r, "deep-traversals", core.Opts{Rule: "PreOrder/PostOrder on a chain of 70 and 200 nodes and a comb of 100 levels (deeper than any preallocated stack), every stop position, both forms; non-trivial = all"},
+		func(emit func(c19Big) bool) {
+			emit(c19Big{"chain", 70})
+			emit(c19Big{"chain", 200})
+			emit(c19Big{"comb", 100})
+		},
+		func(c c19Big) core.Outcome {
+			var code []int
+			if c.Kind == "chain" {
+				code = make([]int, c.N)
+				for i := 0; i < c.N-1; i++ {
+					code[i] = 1
+				}
+			} else {
+				for i := 0; i < c.N; i++ {
+					code = append(code, 2, 0)
+				}
+				code = append(code, 0)
+			}
+			root, _ := buildTree(code)
+			rn := func(n *newick.Node) string { return n.Name }
+			o1 := checkStops(fmt.Sprintf("PreOrder on %s(%d)", c.Kind, c.N), func(s int, rf bool) ([]string, int, string) { return stop1(root.PreOrder(), rn)(s, rf) }, false, false)
+			if o1.Fail != "" {
+				return o1
+			}
+			o2 := checkStops(fmt.Sprintf("PostOrder on %s(%d)", c.Kind, c.N), func(s int, rf bool) ([]string, int, string) { return stop1(root.PostOrder(), rn)(s, rf) }, false, false)
+			if o2.Fail != "" {
+				return o2
+			}
+			o1.Evals += o2.Evals
+			return o1
+		})
+
+	longStops := []int{1, 2, 3, 7, 8, 9, 63, 64, 65, 100, 255, 256, 257, 1023, 1024, 1025, 4095, 4096, 4097, 4098, 65535, 65536, 65537, 65538, 70000, 131071, 131072, 131073, -3, -2, -1}
+	r.Bound("long-runs", fmt.Sprintf("CanonicalSubsequences on sequences of 70 000 and 140 000 bases (k=1, 21), PreOrder/PostOrder on a chain and a star of 70 000 nodes, the ~9 KiB corpus file of every format: stop positions %v (negative = counted from the end); the corpus files additionally at EVERY position", longStops))
+	core.Clause(r, "long-runs", core.Opts{Rule: "long iterations stopped at the listed positions (around 8, 64, 256, 1024, 4096, 65536, 131072 and the ends), both call forms; exactly t callbacks, no panic, prefix of the uninterrupted run; non-trivial = all"},
+		func(emit func(c18Kmer) bool) {
+			emit(c18Kmer{"kmers", 70000*100 + 1})
+			emit(c18Kmer{"kmers", 70000*100 + 21})
+			emit(c18Kmer{"kmers", 140000*100 + 21})
+			emit(c18Kmer{"chain", 70000})
+			emit(c18Kmer{"star", 70000})
+			for _, f := range formats {
+				emit(c18Kmer{core.S("corpus:" + f.Name), 0})
+			}
+		},
+		func(c c18Kmer) core.Outcome {
+			switch {
+			case c.Seq == "kmers":
+				n, k := c.K/100, c.K%100
+				seq := longSeq(n)
+				return checkStopsAt(fmt.Sprintf("CanonicalSubsequences(%d bases, k=%d)", n, k),
+					func(s int, rf bool) ([]string, int, string) {
+						return stop1(sequtil.CanonicalSubsequences(seq, k), func(b []byte) string { return string(b) })(s, rf)
+					}, longStops)
+			case c.Seq == "chain" || c.Seq == "star":
+				var code []int
+				if c.Seq == "chain" {
+					code = make([]int, c.K)
+					for i := 0; i < c.K-1; i++ {
+						code[i] = 1
+					}
+				} else {
+					code = make([]int, c.K+1)
+					code[0] = c.K
+				}
+				root, _ := buildTree(code)
+				rn := func(n *newick.Node) string { return n.Name }
+				o := checkStopsAt(fmt.Sprintf("PreOrder on %s(%d)", c.Seq, c.K), func(s int, rf bool) ([]string, int, string) { return stop1(root.PreOrder(), rn)(s, rf) }, longStops)
+				if o.Fail != "" {
+					return o
+				}
+				return checkStopsAt(fmt.Sprintf("PostOrder on %s(%d)", c.Seq, c.K), func(s int, rf bool) ([]string, int, string) { return stop1(root.PostOrder(), rn)(s, rf) }, longStops)
+			}
+			format := strings.TrimPrefix(string(c.Seq), "corpus:")
+			data := corpus(format, "large")[0]
+			return checkStops(fmt.Sprintf("%s.Reader on the ~9 KiB corpus file", format), readerStop(format, data), false, errLastFormat(format))
+		})
+
 	words := enum.AllStrings("ab", 3)[1:]
 	core.Clause(r, "trie-foreach", core.Opts{Rule: "ForEach on every reachable trie over {a,b}^<=3 (the 676 states of C15, rebuilt here from every subset of the 14 words and deduplicated by JSON form) x every stop position; ForEach takes a callback, so only the direct form applies; items must be distinct members of the full result; non-trivial = at least 2 members"},
 		func(emit func(c18Trie) bool) {
@@ -325,6 +442,18 @@ func runC18(r *core.Run) {
 					continue
 				}
 				seen[string(k)] = true
+				if !emit(c18Trie{ws}) {
+					return
+				}
+			}
+			long := []string{strings.Repeat("a", 9), strings.Repeat("a", 8) + "b", strings.Repeat("b", 20), strings.Repeat("ab", 35), "b" + strings.Repeat("a", 17), "c"}
+			for mask := 1; mask < 1<<len(long); mask++ {
+				var ws []string
+				for i, w := range long {
+					if mask>>i&1 == 1 {
+						ws = append(ws, w)
+					}
+				}
 				if !emit(c18Trie{ws}) {
 					return
 				}
